@@ -295,7 +295,7 @@ class Shared:
         self.lock = threading.Lock(); self.res = check.Result(); self.stats = {}; self.runs = 0; self.runs_by_setting = {}
         self.threads_seen = {}; self.archer_active = 0; self.archer_inactive = 0; self.tsan_runs = 0; self.tsan_reports = 0
         self.tsan_unattributed = 0; self.fatal = None; self.serial_wall = 0.0; self.omp_wall = 0.0; self.tsan_wall = 0.0
-        self.tsan_digest_stats = {}
+        self.tsan_digest_stats = {}; self.first_timeouts = {}
 
 class CaseState:
     def __init__(self, index):
@@ -345,9 +345,13 @@ def run_setting(sh, cs, bins, seed, tier, workdir, st):
     index, ref = cs.index, cs.ref
     variant = st["variant"]
     out_file = os.path.join(workdir, "c%d.%s.txt" % (index, re.sub(r"[^A-Za-z0-9]", "_", st["name"])))
-    tmo = max(240, 60 * cs.serial_wall) if variant == "omp" else max(900, 300 * cs.serial_wall)
+    tmo = max(120, 25 * cs.serial_wall) if variant == "omp" else max(600, 150 * cs.serial_wall)
     rr = run_one(bins[variant], seed, index, tier, st, out_file, workdir, tmo)
     if rr["timed_out"]:
+        try: phase = parse_obs(out_file)["last_phase"]
+        except OSError: phase = "start"
+        with sh.lock:
+            k = "%s:during=%s:%s" % (variant, step_kind(phase), ref["family"]); sh.first_timeouts[k] = sh.first_timeouts.get(k, 0) + 1
         rr = run_one(bins[variant], seed, index, tier, st, out_file, workdir, 2 * tmo)   # once more with a doubled watchdog
         if rr["timed_out"]:
             cs.add_v("hang:%s:%s" % (variant, ref["family"]), dict(setting=st["name"], watchdog_s=2 * tmo, serial_wall_s=round(cs.serial_wall, 2),
@@ -533,6 +537,7 @@ def check_fn(prop, cfg, tier, seed, ncases_override=None):
                          report_blocks=sh.tsan_reports, report_blocks_without_repo_frame=sh.tsan_unattributed,
                          digest_steps_compared=sh.tsan_digest_stats.get("steps_compared", 0),
                          note="reports without any frame inside the repository are counted, not reported; on the unchanged tree there were none"),
+        watchdog_first_attempts=dict(sorted(sh.first_timeouts.items())),   # runs that passed the watchdog once and were repeated with a doubled one (a second miss is a hang violation)
         wall_split_s=dict(serial=round(sh.serial_wall, 1), omp=round(sh.omp_wall, 1), omptsan=round(sh.tsan_wall, 1)))
     return check.finish(prop, tier, seed, cfg.get("level", "exploration"), sh.res, cfg["rule"], t0, extra_cov=extra,
                         assumptions=cfg.get("assumptions"), min_nontrivial=cfg.get("min_nontrivial", 2))
